@@ -665,4 +665,136 @@ theorem loop_pieces (e : Char) (he : TermOk e) (rest : List Char) :
       obtain ⟨h1, h2⟩ := hp
       exact loop_redir fd h1 op w _ h2 hn sp b k
 
+
+/-- a simple command with scalar assignments and normal redirections -/
+def mkSimple (as : List (List Char × Word)) (ws : List Word)
+    (rs : List (Option Nat × RedirOp × Word)) : SimpleCommand :=
+  ⟨as.map fun a => ⟨a.1, .scalar a.2⟩, ws, rs.map fun r => .normal r.1 r.2.1 r.2.2⟩
+
+def assignPieces (as : List (List Char × Word)) : List Piece := as.map fun a => .assign a.1 a.2
+def wordPieces (ws : List Word) : List Piece := ws.map .word
+def redirPieces (rs : List (Option Nat × RedirOp × Word)) : List Piece :=
+  rs.map fun r => .redir r.1 r.2.1 r.2.2
+
+/-- the pieces in the order `impl Display for SimpleCommand` prints them -/
+def simplePieces (as : List (List Char × Word)) (ws : List Word)
+    (rs : List (Option Nat × RedirOp × Word)) : List Piece :=
+  if !(mkSimple as ws rs).assigns.isEmpty || !firstWordIsKeyword (mkSimple as ws rs) then
+    assignPieces as ++ wordPieces ws ++ redirPieces rs
+  else redirPieces rs ++ wordPieces ws
+
+theorem printSimple_pieces (as : List (List Char × Word)) (ws : List Word)
+    (rs : List (Option Nat × RedirOp × Word)) :
+    printSimple (mkSimple as ws rs) = printPieces (simplePieces as ws rs) := by
+  unfold printSimple simplePieces printPieces
+  split <;>
+    simp [mkSimple, assignPieces, wordPieces, redirPieces, List.map_append, List.map_map,
+      Function.comp_def, Piece.print, printAssign, printValue]
+
+theorem foldl_assigns (as : List (List Char × Word)) (b : Builder) :
+    (assignPieces as).foldl Builder.push b =
+      { b with assigns := b.assigns ++ as.map fun a => ⟨a.1, .scalar a.2⟩ } := by
+  induction as generalizing b with
+  | nil => simp [assignPieces]
+  | cons a as ih =>
+    simp only [assignPieces, List.map_cons, List.foldl_cons] at ih ⊢
+    rw [ih]
+    simp [Builder.push]
+
+theorem foldl_words (ws : List Word) (b : Builder) :
+    (wordPieces ws).foldl Builder.push b = { b with words := b.words ++ ws } := by
+  induction ws generalizing b with
+  | nil => simp [wordPieces]
+  | cons a as ih =>
+    simp only [wordPieces, List.map_cons, List.foldl_cons] at ih ⊢
+    rw [ih]
+    simp [Builder.push]
+
+theorem foldl_redirs (rs : List (Option Nat × RedirOp × Word)) (b : Builder) :
+    (redirPieces rs).foldl Builder.push b =
+      { b with redirs := b.redirs ++ rs.map fun r => .normal r.1 r.2.1 r.2.2 } := by
+  induction rs generalizing b with
+  | nil => simp [redirPieces]
+  | cons a as ih =>
+    simp only [redirPieces, List.map_cons, List.foldl_cons] at ih ⊢
+    rw [ih]
+    simp [Builder.push]
+
+theorem foldl_simplePieces (as : List (List Char × Word)) (ws : List Word)
+    (rs : List (Option Nat × RedirOp × Word)) :
+    (simplePieces as ws rs).foldl Builder.push ⟨[], [], []⟩ =
+      ⟨(mkSimple as ws rs).assigns, (mkSimple as ws rs).words, (mkSimple as ws rs).redirs⟩ := by
+  unfold simplePieces
+  split
+  · simp [List.foldl_append, foldl_assigns, foldl_words, foldl_redirs, mkSimple]
+  · rename_i h
+    have : as = [] := by
+      cases as with
+      | nil => rfl
+      | cons a as => simp [mkSimple] at h
+    subst this
+    simp [List.foldl_append, foldl_words, foldl_redirs, mkSimple]
+
+/-- ★ A simple command with scalar assignments, words and redirections (with or without a file
+    descriptor number, every redirection operator) prints — assignments, words, redirections, or
+    redirections first when there is no assignment and the first word is a reserved word — as text
+    that the model of `Parser::simple_command` reads back as the same command, stopping in front of the
+    terminator. -/
+theorem simple_command_roundtrip_aux (as : List (List Char × Word)) (ws : List Word)
+    (rs : List (Option Nat × RedirOp × Word)) (e : Char) (rest : List Char) (he : TermOk e)
+    (hne : (mkSimple as ws rs).assigns ≠ [] ∨ ws ≠ [] ∨ (mkSimple as ws rs).redirs ≠ [])
+    (hok : PiecesOk ⟨[], [], []⟩ (simplePieces as ws rs) (e :: rest)) :
+    parseSimple ((simplePieces as ws rs).length + 1) (printSimple (mkSimple as ws rs) ++ e :: rest) =
+      some (some (mkSimple as ws rs), e :: rest) := by
+  have hl := loop_pieces e he rest (simplePieces as ws rs) ⟨[], [], []⟩ _ false (Nat.le_refl _)
+    (fun _ => rfl) hok
+  simp only [Bool.false_eq_true, if_false, List.nil_append] at hl
+  unfold parseSimple
+  rw [printSimple_pieces, hl, foldl_simplePieces]
+  have : (Builder.mk (mkSimple as ws rs).assigns (mkSimple as ws rs).words
+      (mkSimple as ws rs).redirs).isEmpty = false := by
+    simp only [Builder.isEmpty]
+    rcases hne with h | h | h
+    · cases hh : (mkSimple as ws rs).assigns with
+      | nil => exact absurd hh h
+      | cons _ _ => simp
+    · have : (mkSimple as ws rs).words = ws := rfl
+      rw [this]
+      cases ws with
+      | nil => exact absurd rfl h
+      | cons _ _ => simp
+    · cases hh : (mkSimple as ws rs).redirs with
+      | nil => exact absurd hh h
+      | cons _ _ => simp
+  simp [this]
+
+
+theorem litWord_tok (c : Char) (next : List Char)
+    (h : c ≠ '\\' ∧ c ≠ '$' ∧ c ≠ '`' ∧ Delim.token.test c = false ∧ c ≠ '"' ∧ c ≠ '\'' ∧ c ≠ '~' ∧ c ≠ '#')
+    (cs : List Char)
+    (hcs : ∀ x ∈ cs, x ≠ '\\' ∧ x ≠ '$' ∧ x ≠ '`' ∧ Delim.token.test x = false ∧ x ≠ '"' ∧ x ≠ '\'') :
+    TokWordOk (digitsWord (c :: cs)) next := by
+  refine ⟨?_, by simp [digitsWord], by simp [digitsWord, NoTildeFront, h.2.2.2.2.2.2.1], ?_⟩
+  · have : ∀ l : List Char, (∀ x ∈ l, x ≠ '\\' ∧ x ≠ '$' ∧ x ≠ '`' ∧ Delim.token.test x = false ∧
+        x ≠ '"' ∧ x ≠ '\'') → WordUnits.Ok .word .token (digitsWord l) next := by
+      intro l
+      induction l with
+      | nil => intro _; simp [digitsWord, WordUnits.Ok]
+      | cons y ys ih =>
+        intro hy
+        have h1 := hy y (by simp)
+        have := ih (fun x hx => hy x (by simp [hx]))
+        simp only [digitsWord, List.map_cons] at this ⊢
+        simp only [WordUnits.Ok, WordUnit.Ok, TextUnit.Ok, UnquotedOk]
+        exact ⟨⟨⟨h1.1, h1.2.1, h1.2.2.1, h1.2.2.2.1⟩, h1.2.2.2.2.1, fun _ => h1.2.2.2.2.2⟩, this⟩
+    apply this
+    intro x hx
+    simp at hx
+    rcases hx with rfl | hx
+    · exact ⟨h.1, h.2.1, h.2.2.1, h.2.2.2.1, h.2.2.2.2.1, h.2.2.2.2.2.1⟩
+    · exact hcs x hx
+  · rw [printWord_digitsWord]
+    simp [h.2.2.2.2.2.2.2]
+
+
 end YashModel.Syntax
